@@ -480,7 +480,10 @@ class Check:
               "violations": len(viol)}
         with open(os.path.join(ROOT, "evidence", f"{self.pid}.json"), "w") as f:
             json.dump(ev, f, indent=1)
-        shutil.rmtree(self.work, ignore_errors=True)
+        if os.environ.get("VERIF_KEEP_WORK"):
+            print("work kept:", self.work)
+        else:
+            shutil.rmtree(self.work, ignore_errors=True)
         print(f"{self.pid} {self.tier}: obligations {cov['obligations']} discharged {cov['discharged']} "
               f"evaluations {cov['evaluations']} disagreements {cov['disagreements_checked']} "
               f"violations {len(viol)} known {len(printed)} wall {ev['wall_s']}s")
